@@ -1,0 +1,5 @@
+//go:build !verif
+
+package waddrmgr
+
+func verifPoint(name string) {}
